@@ -3,7 +3,8 @@
 import ast
 
 from ..engine import rule
-from ..flow import PRUNE, Violation, explore, path_ends, path_is, prov_has, \
+from ..flow import PRUNE, Violation, explore, implied_atoms, path_ends, \
+    path_is, prov_has, \
     provenance, raising_node, store_value, truth_test
 from ..model import dotted, walk_local
 from ..twopc import BLOBSTORAGE, FS, identity_guard
@@ -246,15 +247,16 @@ def r4(R):
             g, b, F = R.cfg(f, f.cls, max_depth=0)
 
             def edge(node, st, lab, tgt, F=F):
-                if node.kind == 'test' and lab in ('T', 'F') and \
-                        isinstance(node.ast, ast.Compare) and \
-                        len(node.ast.ops) == 1 and \
-                        isinstance(node.ast.ops[0], ast.Eq) and \
-                        isinstance(node.ast.left, ast.Name) and \
-                        node.ast.left.id == 'mode' and \
-                        isinstance(node.ast.comparators[0], ast.Constant):
-                    if lab == 'T':
-                        return node.ast.comparators[0].value
+                if node.kind == 'test' and lab in ('T', 'F'):
+                    for e, truth in implied_atoms(node.ast, lab):
+                        if isinstance(e, ast.Compare) and \
+                                len(e.ops) == 1 and \
+                                isinstance(e.ops[0], (ast.Eq, ast.NotEq)) and \
+                                isinstance(e.left, ast.Name) and \
+                                e.left.id == 'mode' and \
+                                isinstance(e.comparators[0], ast.Constant):
+                            if isinstance(e.ops[0], ast.Eq) == truth:
+                                return e.comparators[0].value
                 return st
 
             opens = []
@@ -312,7 +314,36 @@ def r5(R):
     f = R.method(cls, '_remove_blob_files_tagged_for_removal_during_pack')
     g, b, F = R.cfg(f, cls, max_depth=0)
     n = 0
-    handlers = {'handle_file', 'handle_dir'}
+    # the locals that stand for "remove (or move away) this path": a nested
+    # function, or an alias of remove_committed / remove_committed_dir or of
+    # another such local -- whatever they are called
+    defs = b.local_defs(f)
+    nested_rm = {
+        x.name for x in walk_local(f.node)
+        if isinstance(x, ast.FunctionDef) and x is not f.node and any(
+            isinstance(c, ast.Call) and dotted(c.func) in (
+                ('os', 'rename'), ('os', 'remove'), ('os', 'unlink'),
+                ('shutil', 'rmtree')) for c in ast.walk(x))}
+    handlers = set()
+    changed = True
+    while changed:
+        changed = False
+        for name, ds in defs.items():
+            if name in handlers or not ds:
+                continue
+            ok = True
+            for d in ds:
+                if d is None and name in nested_rm:
+                    continue
+                dn = dotted(d) if isinstance(d, ast.AST) else None
+                if dn and (dn[-1] in ('remove_committed',
+                                      'remove_committed_dir') or
+                           (len(dn) == 1 and dn[0] in handlers)):
+                    continue
+                ok = False
+            if ok:
+                handlers.add(name)
+                changed = True
     for op in F.all_ops():
         if op.kind != 'call' or op.path is None:
             continue
@@ -324,6 +355,8 @@ def r5(R):
                         ('@shutil', 'rmtree'))
         if not is_rm or not op.ast.args:
             continue
+        if op.node.frame.func is not f:
+            continue                     # inside a helper: its caller counts
         a = op.ast.args[0]
         pv = provenance(a, op.node.frame, F)
         if any(isinstance(x, ast.Constant) and x.value == '.removed'
@@ -331,13 +364,11 @@ def r5(R):
             continue                     # the list file itself
         n += 1
         R.instance('removal: %s' % ast.unparse(op.ast)[:60])
+        # the path is computed from a line of the packer's list
         from_list = prov_has(pv, 'call', lambda p: p[-1] in (
-            'unhexlify',)) or any(k == 'path' and v == ('%local', 'line')
-                                  for k, v in pv)
-        names = {x.id for x in ast.walk(a) if isinstance(x, ast.Name)}
-        if not (from_list or 'line' in names or 'path' in names and
-                prov_has(pv, 'call', lambda p: p[-1] in (
-                    'getPathForOID', 'getBlobFilename'))):
+            'unhexlify',)) and prov_has(pv, 'call', lambda p: p[-1] in (
+                'getPathForOID', 'getBlobFilename'))
+        if not from_list:
             R.violation(op.node, 'a blob file or directory that the packer '
                         'did not list in `.removed` is removed after the '
                         'pack (`%s`)' % ast.unparse(op.ast)[:60])
